@@ -119,10 +119,13 @@ FeatureById(id) == CHOOSE f \in Features : f.id = id
 Present(id, v) == LET f == FeatureById(id) IN v >= f.lo /\ v <= f.hi
 
 \* --- policy ---------------------------------------------------------------
-Callers == {"none", "noroles", "reader_own", "reader_other", "member", "admin", "service"}
+\* (the *_svchdr callers also send the roles of a service token, X-Service-Roles: these are
+\* not roles of the caller and no documented rule refers to them)
+Callers == {"none", "noroles", "reader_own", "reader_other", "member", "admin", "service",
+            "noroles_svchdr", "reader_svchdr"}
 RolesOf(c) == CASE c = "admin" -> {"admin", "member", "reader"}
                 [] c = "member" -> {"member", "reader"}
-                [] c \in {"reader_own", "reader_other"} -> {"reader"}
+                [] c \in {"reader_own", "reader_other", "reader_svchdr"} -> {"reader"}
                 [] c = "service" -> {"service"}
                 [] OTHER -> {}
 \* every caller but reader_other asks about its own project
